@@ -80,7 +80,7 @@ func (propNull) Exec(p *Plan, x *Ctx) *Outcome {
 	out.Nontrivial = out.Switches > 0
 	out.CaseSig = out.SchedSig
 	for _, e := range run.Executed {
-		out.Events.Int(int64(e.Task)).Int(e.Quantum)
+		out.Sched.Int(int64(e.Task)).Int(e.Quantum)
 	}
 	return out
 }
